@@ -600,6 +600,11 @@ func (s *c15State) apply(faults []c15Fault, race string, where string) {
 				if strings.Join(before[n], "\n") != strings.Join(want, "\n") || before[n] == nil {
 					continue
 				}
+				if len(want) == 0 {
+					// an empty chain holds nothing that could be rewritten (the nft-backend path
+					// re-flushes an already empty chain, which changes nothing)
+					continue
+				}
 				touched := m.FlushedChains.Contains(n)
 				for i := 0; i <= len(want)+3 && !touched; i++ {
 					touched = m.RuleTouched(n, i)
